@@ -79,6 +79,7 @@ func register(r *mc.Registry) {
 		"unbounded sources: a demand is run only if the first 24 elements determine its answers for every continuation (otherwise the reference itself needs the whole source: excluded, counted in the census); it must then be answered with at most 36 pulls",
 		"non-termination is decided by a budget of 4000 (lists: 6000) callback invocations/pulls/probes per run on inputs of length <= 5",
 		"list demand = the cells whose emptiness/head/tail the consumer asked for; a memoised list evaluates each cell at most once = generator(i) of list.Generate/GenerateFrom is invoked at most once per index over the demand and a complete re-traversal (and an iterator-backed list yields the same values again)",
+		"besides the HasNext/Next demands every finite Iterator pipeline is drained once with Next alone (Next x len(out), then HasNext): legal because every iterator of the library guards its own next; key suffix /next-without-hasnext",
 		"on finite sources the direct (unwrapped) multi-stage pipeline is run for the largest demand only: the calls of every smaller demand are a prefix of its calls",
 		"ties (scenario ties/ops): elements item{Key,Tag} with Ord/Eq/Hashable/key functions that look at Key only; the Iterator and List functions must give exactly what the eager package-seq counterpart gives on the same elements (which of several equivalent elements Min/Max/ToSet/ToMap keep, the order Sort leaves them in, group order, which duplicate key wins); the oracle there is the library's own seq function, not a harness loop",
 		"end-to-end bound (Iterator pipelines): needs are propagated from the consumer to the original source, need_i = shortest prefix of stage i's reference input that fixes its answers to what stage i+1 may ask (brute force, bisection), allow_i = max(need_i, Drop's eager skip) + declared look-ahead (0; ToList/Collect prefetch 1; Zip(src,other) 1 because Zip asks its first argument first); a trailing HasNext that the reference answers with true counts as asking for that element; pulls from the original source <= allow_0 + 2; checked on inputs followed by a tail of 8 irrelevant elements (scenarios iter/e2e/*) and on the unbounded generators (a run must come back within the bound whenever allow_0 is finite)",
